@@ -575,11 +575,16 @@ impl Xot {
 
     /// Iterator over the child nodes of this node, in reverse order.
     pub fn reverse_children(&self, node: Node) -> impl Iterator<Item = Node> + '_ {
-        node.get()
-            .children(self.arena())
-            .rev()
-            .take_while(|n| self.arena[*n].get().is_normal())
-            .map(Node::new)
+        // walk the sibling links from the last child; indextree's double-ended
+        // `children().rev()` does not advance and yields the last child for ever
+        let mut current = self.arena[node.get()].last_child();
+        std::iter::from_fn(move || {
+            let node_id = current?;
+            current = self.arena[node_id].previous_sibling();
+            Some(node_id)
+        })
+        .take_while(|n| self.arena[*n].get().is_normal())
+        .map(Node::new)
     }
 
     fn normal_filter(&self) -> impl Fn(&indextree::NodeId) -> bool + '_ {
